@@ -230,6 +230,19 @@ pub fn c15_clone_nodrop<const N: usize>() {
     vf::check(c == m && sc == s, 1502);
 }
 
+/// C06: a container whose VALUE is larger than 4 KiB (size thresholds): construction, insertion, lookup, clone, equality and
+/// removal make no allocator call (run with micromap's `std` feature off and on)
+pub fn c06_big<const N: usize>() {
+    type Big = [u64; 200];
+    let mut m: Map<u8, Big, N> = Map::new(); // no garbage fill: 4.8 KB of logged bytes would serve no purpose here
+    let k = vf::any_u8();
+    if vf::any_bool() { let mut b = [0u64; 200]; b[0] = k as u64; vf::check(m.insert(k, b).is_none(), 100); vf::reach(1); } else { vf::reach(2); }
+    vf::check(core::mem::size_of::<Map<u8, Big, N>>() > 4096 || N < 3, 206);
+    let c = m.clone();
+    vf::check(c.len() == m.len(), 1502);
+    if let Some(a) = c.get(&k) { vf::check(a[0] == k as u64, 1501); }
+}
+
 // ------------------------------------------------------------------------------------------ C16
 /// source of (key, value) pairs that records how it is consumed
 pub struct PairSrc<const L: usize> { pub items: [Option<(Tok, Tok)>; L], pub pos: usize, pub len: usize, pub pulled: usize, pub slack_lo: usize, pub slack_hi: Option<usize> }
@@ -413,6 +426,7 @@ harnesses! {
     c15_set_clone: [0] [1] [2] [3];
     c15_clone_nodrop: [1] [2] [3];
     c15_clone_from: [1] [2] [3];
+    c06_big: [3];
     c16_from_iter: [0, 1] [1, 2] [2, 3] [3, 4] [2, 4];
     c16_from_array: [0] [1] [2] [3];
     c16_set_from: [1, 2] [2, 3] [3, 4];
